@@ -578,8 +578,9 @@ def expand_net(st, seed):
             shapes = [dict(o=len(L["W"]), i=len(L["W"][0]), act=L["act"]) for L in r["layers"]]
             P = sum(s["o"] * s["i"] + s["o"] for s in shapes)
             hyper = [dict(W=_imat(rng, P, 2, -1, 1), b=[rng.randint(-1, 1) for _ in range(P)], act="id")]
-            if st["depth"] == 2:      # a two-layer hyper-network (its last layer's size is computed by create_HYPERPINN)
-                hyper = [dict(W=[[1, rng.choice([-1, 1])], [rng.choice([0, 1]), 1]], b=[rng.randint(-1, 1), 0], act="id")] + hyper
+            if st["depth"] == 2:      # a two-layer hyper-network 2 -> 3 -> P (its last layer's size is computed by create_HYPERPINN)
+                hyper = [dict(W=[[1, rng.choice([-1, 1])], [rng.choice([0, 1]), 1], [1, 0]], b=[rng.randint(-1, 1), 0, 1], act="id"),
+                         dict(W=_imat(rng, P, 3, -1, 1), b=[rng.randint(-1, 1) for _ in range(P)], act="id")]
             r.update(inner=shapes, hyper=hyper,
                      hth=[rng.choice([1, 2]), rng.choice([-1, 1, 3])], hporder=rng.choice(["k3k4", "k4k3"]))
     else:
